@@ -74,7 +74,11 @@ EXPLANATION = (
     "members are distinct constants, X[slice(a, b)] is X[a:b], `with contextlib.suppress(E): B` is try: B except E: pass, "
     "`x = x` (also as a component of a tuple assignment) defines nothing, a private list that is only grown at its end "
     "(append / extend / += display) and only read by b''.join(..) is, at each program point, the concatenation of the items "
-    "put in on the path taken. "
+    "put in on the path taken; a sequence that is re-bound instead of mutated (parts = (*parts, x), parts += (x,)) and read only "
+    "item-wise (star, +, constant slice, tuple()/list(), b''.join) has the items of the definition that reaches the point. "
+    "A phase helper that hands its verdict BACK as one component of its result (auth, verdict, payloads = helper(data)) counts "
+    "for a site dominated by a test that found that component of that call true, when every return of the helper has the "
+    "literal False/None/0 there or meets - given that its component is true - the conditions of _ez_unpack_auth. "
     "Decides the dataflow/dominance facts, not the cryptography."
 )
 
@@ -984,9 +988,12 @@ def _quantifier_facts(fi: FuncInfo, f: Fact) -> list[tuple[ast.AST, bool]]:
     return out
 
 
-def _site_facts(ctx: Ctx, fi: FuncInfo, cfg, site: ast.AST, rounds: int = 2) -> list[Fact]:
+def _site_facts(ctx: Ctx, fi: FuncInfo, cfg, site: ast.AST, rounds: int = 2, assume=()) -> list[Fact]:
     """
-    facts_at(site) plus the facts that follow from them through decisions:
+    facts_at(site) - plus `assume`: (atom, polarity) pairs the caller of this function takes as given at the site (the
+    atom is an expression evaluated by the site's own statement, e.g. one component of the tuple a `return` hands back
+    when the question is "what holds whenever that component is true?") - plus the facts that follow from them through
+    decisions:
       * a dominating test of a local tag / of a helper's result  ->  what is common to all ways the tested value can have
         been obtained that are compatible with the outcome of the test (a truthy / falsy outcome of a boolean expression
         also gives the atoms of that expression),
@@ -994,7 +1001,7 @@ def _site_facts(ctx: Ctx, fi: FuncInfo, cfg, site: ast.AST, rounds: int = 2) -> 
     Derived facts never rest on an `assert`.
     """
     from ..match import _atoms_with_polarity
-    base = facts_at(cfg, site)
+    base = list(facts_at(cfg, site)) + [g for a, p in assume for g in _atoms_with_polarity(a, p)]
     nodes = [n for n in cfg.nodes_for(site) if cfg.reachable(n)]
     out = list(base)
     seen = {_facts_key(fi, f.atom, _atom_pol(f)) for f in base}
@@ -2147,10 +2154,14 @@ class _Verified:
     the calls - one of them has completed -, `auth_idx` / `key_idx`: where their result carries the verified auth payload
     / the verified key; auth_idx None with has_auth: the result itself is the auth payload)"""
 
-    def __init__(self, fi, vcall=None, a_auth=None, ucalls=(), auth_idx=None, has_auth=True, key_idx=None, fields=None) -> None:
+    def __init__(self, fi, vcall=None, a_auth=None, ucalls=(), auth_idx=None, has_auth=True, key_idx=None, fields=None,
+                 verdict_idx=None) -> None:
         self.fi, self.vcall, self.a_auth = fi, vcall, a_auth
         self.ucalls, self.auth_idx, self.has_auth, self.key_idx = list(ucalls), auth_idx, has_auth, key_idx
         self.fields = list(fields) if fields else None      # component names when the helpers return a record
+        # not None: the helper hands its VERDICT back as this component of its result (a phase helper that leaves the
+        # decision to its caller) and the site is dominated by a test that found that component true
+        self.verdict_idx = verdict_idx
 
     def is_auth(self, e: ast.AST) -> bool:
         """does expression e (of the same function) denote the verified auth payload?"""
@@ -2174,7 +2185,7 @@ def _quiet(ctx: Ctx) -> Ctx:
     """a scratch context (same repository, same CFG cache): lets a rule be asked as a question"""
     sub = Ctx(ctx.prop, ctx.repo, ctx.tier)
     sub._cfgs = ctx._cfgs
-    for k in ("_c01_vs", "_c01_unpackers", "_c01_methods_by_name", "_c01_effects"):
+    for k in ("_c01_vs", "_c01_unpackers", "_c01_methods_by_name", "_c01_effects", "_c01_verdict_helpers"):
         if hasattr(ctx, k):
             setattr(sub, k, getattr(ctx, k))
     return sub
@@ -2229,9 +2240,100 @@ def _unpacker_summary(ctx: Ctx, h: FuncInfo, replay: bool = True) -> dict | None
     return summ
 
 
-def _unpacker_calls(ctx: Ctx, fi: FuncInfo, data_name: str, replay: bool = True, skip=()) -> list[tuple[ast.Call, tuple]]:
-    """(call, (auth_idx, has_auth, key_idx)) for every call in fi of helper(s) that hand out verified material only and
-    are given fi's unmodified datagram parameter `data_name`"""
+def _is_rejecting_component(x: ast.AST | None) -> bool:
+    """the literal False / None / 0: a verdict component that no caller can read as `valid`"""
+    x = strip_cast(x) if x is not None else None
+    return isinstance(x, ast.Constant) and (x.value is False or x.value is None or (type(x.value) is int and x.value == 0))
+
+
+def _return_components(ctx: Ctx, h: FuncInfo, r: ast.Return):
+    """(component expressions as written in the return statement itself, field names | None) of `return (a, b, ...)` /
+    `return Record(a, b, ...)`, else None.  Only a display / construction written in the return statement counts: its
+    components are then evaluated by that statement, so a statement about one of them is a statement about the moment of
+    the return."""
+    if r.value is None:
+        return None
+    v = strip_cast(r.value)
+    if not isinstance(v, (ast.Tuple, ast.Call)):
+        return None
+    cs = _components(ctx, h, v)
+    if cs is None or not cs[2] or any(isinstance(x, ast.Starred) for x in cs[0]):
+        return None
+    return cs[0], (tuple(cs[1]) if cs[1] else None)
+
+
+def _verdict_sites(ctx: Ctx, h: FuncInfo, j: int) -> list | None:
+    """
+    The returns of helper h read as `component j is the verdict`: [(return, assumed facts)] for every return that can hand
+    its caller a TRUE component j (a return whose component j is the literal False / None / 0 tells the caller `invalid`
+    and promises nothing else) - what must hold at such a return is asked under the assumption that the component is
+    true, because that is all a caller that tests the component learns.  None when some return is not a display of more
+    than j components (or returns nothing: then the caller cannot even unpack it - kept out of reach).
+    """
+    out = []
+    rets = [n for n in walk_no_nested(h.node) if isinstance(n, ast.Return)]
+    hcfg = ctx.cfg(h)
+    if hcfg.exit in hcfg.reach(cut_nodes=[n for r in rets for n in hcfg.nodes_for(r)]):
+        return None                                   # can fall off its end
+    width = None
+    for r in rets:
+        rc = _return_components(ctx, h, r)
+        if rc is None or j >= len(rc[0]) or (width is not None and len(rc[0]) != width):
+            return None
+        width = len(rc[0])
+        if _is_rejecting_component(rc[0][j]):
+            continue
+        out.append((r, [(rc[0][j], True)]))
+    return out or None
+
+
+def _verdict_summary(ctx: Ctx, h: FuncInfo, replay: bool = True) -> dict:
+    """
+    Is h a phase helper that hands its caller the VERDICT next to the material - `return auth, signature_valid, payloads`
+    - and leaves the decision to it?  -> {j: summary} for every component j such that every return of h either has the
+    literal False / None / 0 there or satisfies, GIVEN that component j is true, the very conditions checked for
+    _ez_unpack_auth (a positive _verify_signature verdict on the datagram parameter with the key carried in it,
+    payloads decoded from the signed remainder).  A caller that is dominated by a test which found component j of the
+    result true is then in the position of a caller of a helper that returns only after the check.
+    """
+    cache = getattr(ctx, "_c01_verdict_helpers", None)
+    if cache is None:
+        cache = ctx._c01_verdict_helpers = {}         # type: ignore[attr-defined]
+    k = id(h.node)
+    if k in cache:
+        return cache[k][1]
+    cache[k] = (h.node, {})                           # recursion guard
+    out: dict = {}
+    if h.is_async or h.node.decorator_list or isinstance(h.node, ast.Lambda) or len(h.params()) < 2 \
+            or any(isinstance(n, (ast.Yield, ast.YieldFrom)) for n in walk_no_nested(h.node)) \
+            or not any(_is_vs_call(c) for c in calls(h)):
+        return out
+    rets = [n for n in walk_no_nested(h.node) if isinstance(n, ast.Return)]
+    widths = {len(rc[0]) if rc is not None else None for rc in (_return_components(ctx, h, r) for r in rets)}
+    if len(widths) != 1 or None in widths:
+        return out
+    for j in range(min(next(iter(widths)), 6)):
+        sites = _verdict_sites(ctx, h, j)
+        if not sites:
+            continue
+        sub = _quiet(ctx)
+        try:
+            summ = _check_unpack_auth(sub, h, strict_first=False, verdict_idx=j)
+        except (AnalysisError, RecursionError):
+            continue
+        if sub.findings or summ is None:
+            continue
+        if replay:
+            _check_unpack_auth(ctx, h, strict_first=False, verdict_idx=j)
+        out[j] = summ
+    cache[k] = (h.node, out)
+    return out
+
+
+def _unpacker_calls(ctx: Ctx, fi: FuncInfo, data_name: str, replay: bool = True, skip=(), verdict: bool = False) -> list[tuple[ast.Call, tuple]]:
+    """(call, (auth_idx, has_auth, key_idx, fields)) for every call in fi of helper(s) that hand out verified material only
+    and are given fi's unmodified datagram parameter `data_name`;  verdict=True: instead (call, (auth_idx, has_auth,
+    key_idx, fields, j)) for helpers that hand back the verdict as component j of their result (see _verdict_summary)"""
     out = []
     for c in calls(fi):
         if _is_vs_call(c) or not isinstance(c.func, (ast.Name, ast.Attribute)) or any(c is x for x in skip):
@@ -2244,6 +2346,27 @@ def _unpacker_calls(ctx: Ctx, fi: FuncInfo, data_name: str, replay: bool = True,
             continue
         targets = _targets(ctx, fi, c)
         if not targets or len(targets) > 4 or any(t.node is fi.node for t in targets):
+            continue
+        if verdict:
+            per_target = []
+            for t in targets:
+                if _unpacker_summary(ctx, t, replay) is not None:
+                    per_target = None             # returns only after the check: the unconditional reading applies
+                    break
+                per_target.append(_verdict_summary(ctx, t, replay))
+            for j in sorted(set.intersection(*[set(vs_) for vs_ in per_target])) if per_target else ():
+                summs = []
+                for t, vs_ in zip(targets, per_target):
+                    sm = vs_[j]
+                    is_method = t.cls is not None and not any(chain(d) == "staticmethod" for d in t.node.decorator_list)
+                    bound = _bind_call(c, t, receiver=is_method)
+                    a = bound.get(sm["data_param"]) if bound else None
+                    if not (isinstance(a, ast.Name) and a.id == data_name and _is_param_unmodified(fi, data_name)):
+                        summs = None
+                        break
+                    summs.append((sm["auth_idx"], sm["has_auth"], sm["key_idx"], sm.get("fields"), j))
+                if summs and len(set(summs)) == 1:
+                    out.append((c, summs[0]))
             continue
         summs = []
         for t in targets:
@@ -2261,6 +2384,30 @@ def _unpacker_calls(ctx: Ctx, fi: FuncInfo, data_name: str, replay: bool = True,
         if summs and len(set(summs)) == 1:
             out.append((c, summs[0]))
     return out
+
+
+def _dominating_verdict_helper(ctx: Ctx, fi: FuncInfo, facts, data_name: str):
+    """
+    A call of helper(s) that hand back the verdict as component j of their result (see _verdict_summary), given fi's
+    unmodified datagram parameter, such that a fact that holds at the site through a real branch says that component j
+    of the result of THAT call is true (`auth, ok, payloads = self._parse(data)` ... `if not ok: raise`)  -> _Verified
+    (the call has completed - its result was tested - and every return of the helper that can have produced a true
+    component j hands out verified material only) or None.
+    """
+    cands = None
+    for f in facts:
+        if _fact_in_assert(f):
+            continue
+        e = _known_true_operand(f)
+        if e is None:
+            continue
+        if cands is None:
+            cands = _unpacker_calls(ctx, fi, data_name, verdict=True)
+        for c, (auth_idx, has_auth, key_idx, fields, j) in cands:
+            if _from_calls(fi, e, [c], j, fields=fields):
+                return _Verified(fi, ucalls=[c], auth_idx=auth_idx, has_auth=has_auth, key_idx=key_idx, fields=fields,
+                                 verdict_idx=j)
+    return None
 
 
 def _dominating_unpacker(ctx: Ctx, fi: FuncInfo, cfg, site: ast.AST, data_name: str):
@@ -2281,14 +2428,24 @@ def _dominating_unpacker(ctx: Ctx, fi: FuncInfo, cfg, site: ast.AST, data_name: 
     return None
 
 
-def _check_verified_site(ctx: Ctx, fi: FuncInfo, site: ast.AST, label: str, data_name: str, what: str, unverified: str):
-    """verify-before-call at one site (handler call / return of payloads): -> _Verified or None"""
+def _check_verified_site(ctx: Ctx, fi: FuncInfo, site: ast.AST, label: str, data_name: str, what: str, unverified: str,
+                         assume=()):
+    """verify-before-call at one site (handler call / return of payloads): -> _Verified or None
+    (assume: what the asker takes as given at the site, see _site_facts)"""
     cfg = ctx.cfg(fi)
-    facts = _site_facts(ctx, fi, cfg, site)
+    facts = _site_facts(ctx, fi, cfg, site, assume=assume)
     vcall, asserted = _dominating_verification(ctx, fi, facts, site)
     through = None
     if vcall is None:
         through = _dominating_unpacker(ctx, fi, cfg, site, data_name)
+    if vcall is None and through is None:
+        through = _dominating_verdict_helper(ctx, fi, facts, data_name)
+        if through is not None:
+            ctx.check(True, "verify-before-call", fi, site,
+                      f"{label}: {what} dominated by a test that found component {through.verdict_idx} of the result of "
+                      f"`{norm(through.ucalls[0].func)}` true, which is the _verify_signature(...) verdict on the datagram that "
+                      "helper hands back (checked there)", "", [str(f) for f in facts])
+            return through
     if through is not None:
         ctx.check(True, "verify-before-call", fi, site,
                   f"{label}: {what} dominated by the normal completion of `{norm(through.ucalls[0].func)}`, which returns only "
@@ -2506,11 +2663,13 @@ def _check_delegation(ctx: Ctx, deco: str, fi: FuncInfo, fname: str, inner: ast.
               "payloads handed to the handler are decoded from bytes other than the signed remainder")
 
 
-def _check_unpack_auth(ctx: Ctx, fi: FuncInfo, strict_first: bool = True) -> dict | None:
+def _check_unpack_auth(ctx: Ctx, fi: FuncInfo, strict_first: bool = True, verdict_idx: int | None = None) -> dict | None:
     """
     Every return (of a value) of fi hands out verified material only.  strict_first: the reviewed _ez_unpack_auth
     contract (the verified auth payload is the first component of the result).  -> summary for callers, None when the
     returns disagree about where the auth payload is.
+    verdict_idx: fi is read as a helper that hands the verdict back as that component of its result (see
+    _verdict_summary): only the returns that can carry a true verdict are examined, each GIVEN that its verdict is true.
     """
     params = fi.params()
     if len(params) < 2:
@@ -2535,11 +2694,22 @@ def _check_unpack_auth(ctx: Ctx, fi: FuncInfo, strict_first: bool = True) -> dic
     label = fi.name
     rets = [n for n in walk_no_nested(fi.node) if isinstance(n, ast.Return) and n.value is not None]
     ctx.anchor(rets, f"{fi.qualname} return")
+    assumed: dict = {}
+    if verdict_idx is not None:
+        sites = _verdict_sites(ctx, fi, verdict_idx)
+        if not sites:
+            return None
+        assumed = {id(r): a for r, a in sites}
+        for r in rets:
+            if id(r) not in assumed:
+                ctx.instance("verify-before-call", fi.where, f"{label}: `{norm(r)}` hands back the literal verdict `invalid` "
+                             f"(component {verdict_idx})", line=getattr(r, "lineno", 0))
+        rets = [r for r in rets if id(r) in assumed]
     where = set()
     for r in rets:
         ver = _check_verified_site(
-            ctx, fi, r, label, data_name, "return",
-            f"{label} can return payloads without a successful signature verification")
+            ctx, fi, r, label, data_name, "return" if verdict_idx is None else f"return of a true component {verdict_idx}",
+            f"{label} can return payloads without a successful signature verification", assume=assumed.get(id(r), ()))
         if ver is None:
             where.add("unverified")
             continue
@@ -2677,16 +2847,24 @@ def _peer_from_helper(ctx: Ctx, fi: FuncInfo, ver: "_Verified", peer_arg: ast.AS
         if not targets:
             return False
         for h in targets:
-            sm = _unpacker_summary(ctx, h)
+            assumed: dict = {}
+            if ver.verdict_idx is None:
+                sm = _unpacker_summary(ctx, h)
+            else:
+                # the helper hands back its verdict: only the returns that can carry a true verdict reach the handler call
+                sm = _verdict_summary(ctx, h).get(ver.verdict_idx)
+                assumed = {id(r): a for r, a in (_verdict_sites(ctx, h, ver.verdict_idx) or [])}
             if sm is None:
                 return False
             rets = [n for n in walk_no_nested(h.node) if isinstance(n, ast.Return) and n.value is not None]
+            if ver.verdict_idx is not None:
+                rets = [r for r in rets if id(r) in assumed]
             if not rets:
                 return False
             for r in rets:
                 sub = _quiet(ctx)
                 try:
-                    hver = _check_verified_site(sub, h, r, h.name, sm["data_param"], "return", "")
+                    hver = _check_verified_site(sub, h, r, h.name, sm["data_param"], "return", "", assume=assumed.get(id(r), ()))
                 except AnalysisError:
                     return False
                 if hver is None or sub.findings:
@@ -2862,11 +3040,15 @@ def rule_effects_after_verdict(ctx: Ctx) -> None:
                 # positive verdict on the datagram it is given - fi's own datagram), the change is judged INSIDE it,
                 # against its own verdict, exactly as it is judged here for the wrappers
                 if verifying is None:
-                    verifying = {id(c): c for c, _k in _unpacker_calls(ctx, fi, data_name)}
+                    verifying = {id(c): None for c, _k in _unpacker_calls(ctx, fi, data_name)}
+                    # ... or hands its verdict back to fi next to the material (judged inside against that verdict too)
+                    for c, k_ in _unpacker_calls(ctx, fi, data_name, verdict=True):
+                        verifying.setdefault(id(c), k_[4])
                 if id(site) in verifying:
                     moved = []
                     for t in _targets(ctx, fi, site):
-                        sm = _unpacker_summary(ctx, t)
+                        vj = verifying[id(site)]
+                        sm = _unpacker_summary(ctx, t) if vj is None else _verdict_summary(ctx, t).get(vj)
                         if sm is None:
                             moved = None
                             break
@@ -2877,7 +3059,8 @@ def rule_effects_after_verdict(ctx: Ctx) -> None:
             n_sites += 1
             facts = _site_facts(ctx, fi, cfg, site)
             vcall, _asserted = _dominating_verification(ctx, fi, facts, site)
-            ok = vcall is not None or _dominating_unpacker(ctx, fi, cfg, site, data_name) is not None
+            ok = vcall is not None or _dominating_unpacker(ctx, fi, cfg, site, data_name) is not None \
+                or _dominating_verdict_helper(ctx, fi, facts, data_name) is not None
             ctx.check(ok, "effect-after-verdict", fi, site,
                       f"{label}: change of a verified-peer entry only after a positive _verify_signature(...) verdict",
                       f"{label}: {what} on a path on which the signature of the datagram has not (yet) been found valid: "
@@ -3271,6 +3454,136 @@ def _list_builder_at(cfg, fi: FuncInfo, node, name: str, kind: str = "list") -> 
     return [list(s) for s in state.get(node, set()) if s is not None]
 
 
+def _rebound_sequence(fi: FuncInfo, name: str) -> bool:
+    """
+    Is local `name` a sequence that the function RE-BINDS instead of mutating - `parts = (a, b)` ... `parts = (*parts, c)`
+    / `parts = parts + (c,)` / `parts += (c,)` - and reads only in places that take its items in order: `*parts` inside a
+    display, an operand of `+`, a constant slice `parts[1:]`, tuple(parts) / list(parts), `b"".join(parts)`?  Then no
+    other name can refer to the object (no alias is ever made, it is never handed to other code), so at every program
+    point its items are those of the definition that reaches the point (for `+=`: the items before, then the new ones).
+    """
+    from ..model import enclosing_function
+    if name in fi.params():
+        return False
+    for n in ast.walk(fi.node):
+        if isinstance(n, ast.arg) and n.arg == name:
+            return False
+        if isinstance(n, (ast.Global, ast.Nonlocal)) and name in n.names:
+            return False
+        if not (isinstance(n, ast.Name) and n.id == name):
+            continue
+        if enclosing_function(n) is not fi.node:
+            return False
+        p = parent(n)
+        if isinstance(n.ctx, ast.Store):
+            if isinstance(p, ast.Assign) and len(p.targets) == 1 and p.targets[0] is n:
+                continue
+            if isinstance(p, ast.AnnAssign) and p.target is n and p.value is not None:
+                continue
+            if isinstance(p, ast.AugAssign) and p.target is n and isinstance(p.op, ast.Add):
+                continue
+            return False
+        if not isinstance(n.ctx, ast.Load):
+            return False
+        if isinstance(p, ast.Starred) and isinstance(parent(p), (ast.Tuple, ast.List)) and isinstance(parent(p).ctx, ast.Load):
+            continue
+        if isinstance(p, ast.BinOp) and isinstance(p.op, ast.Add):
+            continue
+        if isinstance(p, ast.Subscript) and p.value is n and isinstance(p.ctx, ast.Load) and isinstance(p.slice, ast.Slice):
+            continue
+        if isinstance(p, ast.Call) and p.args == [n] and not p.keywords and (
+                _builtin_chain(fi, p.func) in ("tuple", "list") or _is_empty_bytes_join(p, fi) is n):
+            continue
+        return False
+    return True
+
+
+def _const_bound(e) -> tuple[bool, int | None]:
+    """(is a constant slice bound, its value) - None / absent, an int literal, a negated int literal"""
+    if e is None or (isinstance(e, ast.Constant) and e.value is None):
+        return True, None
+    if isinstance(e, ast.Constant) and type(e.value) is int:
+        return True, e.value
+    if isinstance(e, ast.UnaryOp) and isinstance(e.op, ast.USub) and isinstance(e.operand, ast.Constant) and type(e.operand.value) is int:
+        return True, -e.operand.value
+    return False, None
+
+
+def _sequence_items_at(cfg, fi: FuncInfo, node, seq: ast.AST, depth: int = 8) -> list[list[tuple]] | None:
+    """
+    The items, in order, of sequence expression `seq` evaluated on entry to CFG node `node`: one list of (cfg node at
+    which the item expression is evaluated, item expression) per combination of reaching definitions.  Follows displays
+    (with `*s` items), `s + t`, tuple(s) / list(s), constant slices s[a:b], and locals that are re-bound rather than
+    mutated (_rebound_sequence) through their reaching definitions.  None when it cannot be followed (loop-carried, ...).
+    """
+    seq = strip_cast(seq)
+    if depth <= 0:
+        return None
+    if isinstance(seq, (ast.Tuple, ast.List)):
+        acc: list[list[tuple]] = [[]]
+        for x in seq.elts:
+            sub = _sequence_items_at(cfg, fi, node, x.value, depth - 1) if isinstance(x, ast.Starred) else [[(node, x)]]
+            if sub is None:
+                return None
+            acc = [a + b for a in acc for b in sub]
+            if len(acc) > 32:
+                return None
+        return acc
+    if isinstance(seq, ast.BinOp) and isinstance(seq.op, ast.Add):
+        left, right = _sequence_items_at(cfg, fi, node, seq.left, depth - 1), _sequence_items_at(cfg, fi, node, seq.right, depth - 1)
+        if left is None or right is None or len(left) * len(right) > 32:
+            return None
+        return [a + b for a in left for b in right]
+    if isinstance(seq, ast.Call) and len(seq.args) == 1 and not seq.keywords and not isinstance(seq.args[0], ast.Starred) \
+            and _builtin_chain(fi, seq.func) in ("tuple", "list"):
+        return _sequence_items_at(cfg, fi, node, seq.args[0], depth - 1)
+    if isinstance(seq, ast.Subscript) and isinstance(seq.slice, ast.Slice) and seq.slice.step is None:
+        (ok_lo, lo), (ok_hi, hi) = _const_bound(seq.slice.lower), _const_bound(seq.slice.upper)
+        base = _sequence_items_at(cfg, fi, node, seq.value, depth - 1) if ok_lo and ok_hi else None
+        return None if base is None else [items[lo:hi] for items in base]
+    if isinstance(seq, ast.Name) and local_defs(fi, seq.id) and _rebound_sequence(fi, seq.id):
+        defs = {}
+        for st, val, idx in local_defs(fi, seq.id):
+            ns = cfg.nodes_for(st)
+            if not ns or idx is not None or (val is None and not isinstance(st, ast.AugAssign)):
+                return None
+            for n in ns:
+                defs[n] = (st, val)
+        out: list[list[tuple]] = []
+        for dn in _reaching(defs, cfg.entry).get(node, set()):
+            if dn is None:
+                continue                      # unassigned on this path: the read raises
+            st, val = defs[dn]
+            if isinstance(st, ast.AugAssign):
+                val = ast.BinOp(left=ast.Name(id=seq.id, ctx=ast.Load()), op=ast.Add(), right=st.value)
+            sub = _sequence_items_at(cfg, fi, dn, val, depth - 1)
+            if sub is None:
+                return None
+            out.extend(sub)
+            if len(out) > 32:
+                return None
+        return out or None
+    return None
+
+
+def _concat_items(cfg, fi: FuncInfo, alts: list[list[tuple]], depth: int) -> list[list[ast.AST]] | None:
+    """the concatenation of the items of every alternative, each item followed to its leaf parts where it was evaluated"""
+    out_: list[list[ast.AST]] = []
+    for items in alts:
+        if not items:
+            return None
+        acc_: list[list[ast.AST]] = [[]]
+        for at, x in items:
+            sub = _concat_parts_at(cfg, fi, at, x, depth - 1)
+            if sub is None:
+                return None
+            acc_ = [a + b for a in acc_ for b in sub]
+            if len(acc_) > 64:
+                return None
+        out_.extend(acc_)
+    return out_
+
+
 def _concat_parts_at(cfg, fi: FuncInfo, node, e: ast.AST, depth: int = 8) -> list[list[ast.AST]] | None:
     """
     The value of bytes expression `e` on entry to CFG node `node`, as a concatenation of leaf expressions: one list of
@@ -3300,6 +3613,11 @@ def _concat_parts_at(cfg, fi: FuncInfo, node, e: ast.AST, depth: int = 8) -> lis
         # b"".join(parts), parts being a list that the function grows step by step (parts.append(x), parts += [y]):
         # the concatenation of what the list holds at this point, every item as it was when it was put in
         alts = _list_builder_at(cfg, fi, node, acc_name, acc_kind)
+        if not alts and acc_kind == "list":
+            # b"".join(parts), parts being re-bound instead of grown in place (`parts = (*parts, x)`): the concatenation
+            # of the items of the definition that reaches this point
+            alts = _sequence_items_at(cfg, fi, node, joined)
+            return _concat_items(cfg, fi, alts, depth) if alts else None
         if not alts:
             return None
         out_: list[list[ast.AST]] = []
@@ -3321,7 +3639,8 @@ def _concat_parts_at(cfg, fi: FuncInfo, node, e: ast.AST, depth: int = 8) -> lis
         # b"".join([a, b, c]) == a + b + c  (the list may sit in a single-assignment local that is not mutated)
         seq = _sequence_items(fi, e.args[0])
         if not seq:
-            return None
+            alts = _sequence_items_at(cfg, fi, node, e.args[0])     # a display / slice / sum over a re-bound sequence
+            return _concat_items(cfg, fi, alts, depth) if alts else None
     elif isinstance(e, ast.Call) and not e.keywords and len(e.args) == 2 and not any(isinstance(a, ast.Starred) for a in e.args) \
             and (_imported_as(fi, e.func, "operator", ("add", "concat", "iadd", "iconcat"))
                  or (isinstance(e.func, ast.Attribute) and e.func.attr == "join"
@@ -3378,6 +3697,15 @@ def _concat_parts_at(cfg, fi: FuncInfo, node, e: ast.AST, depth: int = 8) -> lis
             out.extend(sub)
         return out
     return [[e]]
+
+
+def _rebinds_sequence(fi: FuncInfo, st, value) -> bool:
+    """is `st` the statement `<name> = <value>` for a local that is a re-bound sequence (see _rebound_sequence)?"""
+    if isinstance(st, ast.Assign) and st.value is value and len(st.targets) == 1 and isinstance(st.targets[0], ast.Name):
+        return _rebound_sequence(fi, st.targets[0].id)
+    if isinstance(st, ast.AnnAssign) and st.value is value and isinstance(st.target, ast.Name):
+        return _rebound_sequence(fi, st.target.id)
+    return False
 
 
 def _signature_flow(fi: FuncInfo, cfg, sig: ast.AST) -> tuple[list, bool, bool]:
@@ -3437,6 +3765,17 @@ def _signature_flow(fi: FuncInfo, cfg, sig: ast.AST) -> tuple[list, bool, bool]:
             # b"".join([a, b, sig]): the signature is appended to a + b
             before = ast.Call(func=parent(p).func, args=[ast.List(elts=list(p.elts[:-1]), ctx=ast.Load())], keywords=[])
             appended.append((cfg.nodes_for(p), before))
+        elif isinstance(p, (ast.List, ast.Tuple)) and isinstance(p.ctx, ast.Load) and p.elts and p.elts[-1] is s and (
+                (len(p.elts) >= 2 and _rebinds_sequence(fi, parent(p), p))
+                or (len(p.elts) == 1 and isinstance(parent(p), ast.BinOp) and isinstance(parent(p).op, ast.Add)
+                    and parent(p).right is p and _rebinds_sequence(fi, parent(parent(p)), parent(p)))):
+            # parts = (*parts, sig) / parts = parts + (sig,): the re-bound sequence is only ever joined (_rebound_sequence),
+            # so the signature is appended to the concatenation of the items that come before it
+            first = list(p.elts[:-1]) if len(p.elts) >= 2 else [ast.Starred(value=parent(p).left, ctx=ast.Load())]
+            st_ = parent(p) if len(p.elts) >= 2 else parent(parent(p))
+            before = ast.Call(func=ast.Attribute(value=ast.Constant(value=b""), attr="join", ctx=ast.Load()),
+                              args=[ast.List(elts=first, ctx=ast.Load())], keywords=[])
+            appended.append((cfg.nodes_for(st_), before))
         elif isinstance(p, (ast.Assign, ast.AnnAssign)) and p.value is s:
             tgts = p.targets if isinstance(p, ast.Assign) else [p.target]
             if len(tgts) == 1 and isinstance(tgts[0], ast.Name):
@@ -5603,3 +5942,66 @@ _ROUND5_WITNESSES = [
 """},
 ]
 WITNESSES += _ROUND5_WITNESSES
+
+# round 5b: a phase helper that hands the VERDICT back to the wrapper (not inlined: it lives in another module), and a
+# packet assembled in a tuple that is re-bound instead of grown
+_W5_CALL = """            auth, signature_valid, unpacked = _parse_signed(self, payloads, data)
+            if not signature_valid:
+                raise PacketDecodingError("invalid signature")
+            # PRODUCE
+"""
+_W5_CALL_IGNORED = """            auth, _signature_valid, unpacked = _parse_signed(self, payloads, data)
+            # PRODUCE
+"""
+_W5_CALL_LATE = """            auth, signature_valid, unpacked = _parse_signed(self, payloads, data)
+            peer = self.network.verified_by_public_key_bin.get(auth.public_key_bin)
+            if peer:
+                peer.add_address(source_address)
+            if not signature_valid:
+                raise PacketDecodingError("invalid signature")
+            # PRODUCE
+"""
+_W5_OLD = _W_BLOCK[:_W_BLOCK.index("            # PRODUCE\n") + len("            # PRODUCE\n")]
+_W5_HELPER = """def _parse_signed(overlay, payloads, data: bytes):
+    from .messaging.payload_headers import BinMemberAuthenticationPayload
+    auth, _ = overlay.serializer.unpack_serializable(BinMemberAuthenticationPayload, data, offset=23)
+    signature_valid, remainder = overlay._verify_signature(auth, data)
+    if not signature_valid:
+        return auth, %s, []
+    return auth, True, overlay.serializer.unpack_serializable_list(payloads, remainder, offset=23)
+
+
+def strip_sha1_padding("""
+_W5_IMPORT = {"file": _LC, "old": "from .peer import Peer\n", "new": "from .peer import Peer\nfrom .util import _parse_signed\n"}
+_PACK5 = """        parts = (prefix, bytes([msg_num]), self.serializer.pack_serializable_list(payloads))
+        if sig:
+            signature = default_eccrypto.create_signature(cast("PrivateKey", self.my_peer.key), b"".join(%s))
+            parts = (%s)
+        return b"".join(parts)
+"""
+_ROUND5B_WITNESSES = [
+    {"name": "round 5b: phase helper of another module hands back (auth, verdict, payloads); the wrapper tests the verdict",
+     "kind": "repaired", "file": _LC, "rule": "verify-before-call",
+     "edits": [{"file": _LC, "old": _W5_OLD, "new": _W5_CALL}, _W5_IMPORT,
+               {"file": _UTIL, "old": "def strip_sha1_padding(", "new": _W5_HELPER % "False"}]},
+    {"name": "round 5b: phase helper hands back the verdict, the wrapper ignores it",
+     "file": _LC, "rule": "verify-before-call",
+     "edits": [{"file": _LC, "old": _W5_OLD, "new": _W5_CALL_IGNORED}, _W5_IMPORT,
+               {"file": _UTIL, "old": "def strip_sha1_padding(", "new": _W5_HELPER % "False"}]},
+    {"name": "round 5b: phase helper hands back a true verdict on its `invalid` path",
+     "file": _LC, "rule": "verify-before-call",
+     "edits": [{"file": _LC, "old": _W5_OLD, "new": _W5_CALL}, _W5_IMPORT,
+               {"file": _UTIL, "old": "def strip_sha1_padding(", "new": _W5_HELPER % "True"}]},
+    {"name": "round 5b: phase helper hands back the verdict, the wrapper re-homes the peer before it tests the verdict",
+     "file": _LC, "rule": "effect-after-verdict",
+     "edits": [{"file": _LC, "old": _W5_OLD + _W_PRODUCE,
+                "new": _W5_CALL_LATE + "            return func(self, peer or Peer(auth.public_key_bin, source_address), *unpacked)\n"},
+               _W5_IMPORT, {"file": _UTIL, "old": "def strip_sha1_padding(", "new": _W5_HELPER % "False"}]},
+    {"name": "round 5b: _ez_pack assembles the packet in a re-bound tuple and signs the join of all parts",
+     "kind": "repaired", "file": _LC, "rule": "sign-covers-all", "old": _EZ_PACK_OLD, "new": _PACK5 % ("parts", "*parts, signature")},
+    {"name": "round 5b: _ez_pack assembles the packet in a re-bound tuple and signs it without the prefix",
+     "file": _LC, "rule": "sign-covers-all", "old": _EZ_PACK_OLD, "new": _PACK5 % ("parts[1:]", "*parts, signature")},
+    {"name": "round 5b: _ez_pack assembles the packet in a re-bound tuple, the signature replaces the prefix",
+     "file": _LC, "rule": "sign-covers-all", "old": _EZ_PACK_OLD, "new": _PACK5 % ("parts", "*parts[1:], signature")},
+]
+WITNESSES += _ROUND5B_WITNESSES
